@@ -333,3 +333,38 @@ M("c13-cleanup-before-store", "C13", "R13.3", MGR, "            self.coinstate =
 M("c13-relay-always", "C13", "R13.4", RP, "        if self.local_peer.chain_manager.add_transaction_to_pool(transaction):\n", "        self.local_peer.chain_manager.add_transaction_to_pool(transaction)\n        if True:\n")
 M("c13-append-outside-lock", "C13", "R13.1", MGR, "            self.transaction_pool.append(transaction)\n\n        return True  # successfully added", "        self.transaction_pool.append(transaction)\n\n        return True  # successfully added")
 M("c13-cleanup-keeps-first", "C13", "R13.3", MGR, "        self.transaction_pool = [t for t in self.transaction_pool if is_valid(t)]", "        self.transaction_pool = self.transaction_pool[:1] + [t for t in self.transaction_pool[1:] if is_valid(t)]")
+
+# ----------------------------------------------------------------------------------------------- C12
+M("c12-time-no-max", "C12", "R12.1", MIN, "        increasing_time = max(int(time()), self.coinstate.head().timestamp + 1)", "        increasing_time = int(time())")
+M("c12-time-no-plus-one", "C12", "R12.1", MIN, "        increasing_time = max(int(time()), self.coinstate.head().timestamp + 1)", "        increasing_time = max(int(time()), self.coinstate.head().timestamp)")
+M("c12-subsidy-only", "C12", ["R12.2", "R05.8"], CONS, "        value=subsidy + fees,", "        value=subsidy,")
+M("c12-validator-ge", "C12", "R12.2", CONS, "    if sum(output.value for output in transaction.outputs) > fees + subsidy:", "    if sum(output.value for output in transaction.outputs) >= fees + subsidy:")
+M("c12-reintroduce-d4", "C12", "R12.4", MIN,
+  "        self.coinstate = self.coinstate.add_block(block, int(time()))\n\n        self.network_thread.local_peer.chain_manager.set_coinstate(self.coinstate)\n        self.network_thread.local_peer.network_manager.broadcast_block(block)\n\n",
+  "        self.network_thread.local_peer.chain_manager.set_coinstate(self.coinstate)\n        self.network_thread.local_peer.network_manager.broadcast_block(block)\n\n        self.coinstate = self.coinstate.add_block(block, int(time()))\n\n")
+M("c12-flush-before-save", "C12", "R12.4", MIN,
+  "        self.network_thread.local_peer.disk_interface.save_block(block)\n        self.network_thread.local_peer.disk_interface.flush_blocks()\n",
+  "        self.network_thread.local_peer.disk_interface.flush_blocks()\n        self.network_thread.local_peer.disk_interface.save_block(block)\n")
+M("c12-no-validation", "C12", "R12.4", MIN, "        self.coinstate = self.coinstate.add_block(block, int(time()))", "        self.coinstate = self.coinstate.add_block_no_validation(block)")
+M("c12-tx-spend-ge", "C12", "R12.2", CONS, "    if sum(output.value for output in transaction.outputs) > total_input_value:", "    if sum(output.value for output in transaction.outputs) >= total_input_value:")
+M("c12-other-miner-args", "C12", "R12.4", MIN, "        summary, current_height, transactions = self.mining_args[miner_id]\n", "        summary, current_height, transactions = self.mining_args[0]\n")
+M("c12-set-only-if-head", "C12", "R12.4", MIN, "        self.network_thread.local_peer.chain_manager.set_coinstate(self.coinstate)\n        self.network_thread.local_peer.network_manager.broadcast_block(block)\n",
+  "        if self.coinstate.head() == block:\n            self.network_thread.local_peer.chain_manager.set_coinstate(self.coinstate)\n        self.network_thread.local_peer.network_manager.broadcast_block(block)\n")
+M("c12-coinbase-fees-wrong-state", "C12", "R05.8", CONS, "    unspent_transaction_outs = coinstate.unspent_transaction_outs_by_hash[coinstate.current_chain_hash]\n\n    coinbase_transaction = construct_coinbase_transaction(\n        current_height, non_coinbase",
+  "    unspent_transaction_outs = coinstate.unspent_transaction_outs_by_hash[previous_block.previous_block_hash]\n\n    coinbase_transaction = construct_coinbase_transaction(\n        current_height, non_coinbase")
+M("c12-no-save-key", "C12", "R15.3", MIN, "        self.public_key = self.wallet.get_annotated_public_key(\"reserved for potentially mined block\")\n        save_wallet(self.wallet)\n\n        self.balance", "        self.public_key = self.wallet.get_annotated_public_key(\"reserved for potentially mined block\")\n\n        self.balance")
+
+# ----------------------------------------------------------------------------------------------- C15
+M("c15-dump-drops-unused", "C15", "R15.1", WAL, "            \"unused_public_keys\": [human(e) for e in self.unused_public_keys],\n", "")
+M("c15-peek-not-pop", "C15", "R15.2", WAL, "        public_key = self.unused_public_keys.pop()", "        public_key = self.unused_public_keys[-1]")
+M("c15-receive-no-save", "C15", "R15.3", "skepticoin/scripts/receive.py", "    public_key = wallet.get_annotated_public_key(args.annotation)\n    save_wallet(wallet)\n", "    public_key = wallet.get_annotated_public_key(args.annotation)\n")
+M("c15-write-final-directly", "C15", "R15.4", WAL, "    with open(\"wallet.json.new\", 'w') as f:\n        wallet.dump(f)\n\n    os.replace(\"wallet.json.new\", \"wallet.json\")", "    with open(\"wallet.json\", 'w') as f:\n        wallet.dump(f)")
+M("c15-replace-inside-with", "C15", "R15.4", WAL, "        wallet.dump(f)\n\n    os.replace(\"wallet.json.new\", \"wallet.json\")", "        wallet.dump(f)\n        os.replace(\"wallet.json.new\", \"wallet.json\")")
+M("c15-handout-no-annotation", "C15", ["R15.5", "R15.2"], WAL, "        self.public_key_annotations[public_key] = annotation\n        return public_key", "        return public_key")
+M("c15-print-before-save", "C15", "R15.3", "skepticoin/scripts/receive.py", "    save_wallet(wallet)\n\n    print(\"SKE\" + human(public_key) + \"PTI\")", "    print(\"SKE\" + human(public_key) + \"PTI\")\n    save_wallet(wallet)")
+M("c15-load-swaps-kv", "C15", "R15.1", WAL, "            keypairs={computer(k): computer(v) for (k, v) in d[\"keypairs\"].items()},", "            keypairs={computer(v): computer(k) for (k, v) in d[\"keypairs\"].items()},")
+M("c15-other-writer-of-final", "C15", "R15.4", "skepticoin/scripts/utils.py", "        wallet.generate_keys(10_000)\n        save_wallet(wallet)", "        wallet.generate_keys(10_000)\n        wallet.dump(open(\"wallet.json\", \"w\"))")
+M("c15-reuse-while-unused", "C15", "R15.2", WAL, "        if len(self.unused_public_keys) == 0:\n            # this if-statement", "        if len(self.unused_public_keys) <= 1:\n            # this if-statement")
+M("c15-balance-skips-unused", "C15", "R15.5", WAL, "            for pk in list(self.public_key_annotations.keys()) + self.unused_public_keys\n", "            for pk in list(self.public_key_annotations.keys())\n")
+M("c15-restore-no-append", "C15", ["R15.2", "R15.5"], WAL, "        del self.public_key_annotations[public_key]\n        self.unused_public_keys.append(public_key)", "        del self.public_key_annotations[public_key]")
+M("c15-send-save-after-spend", "C15", "R15.3", "skepticoin/scripts/send.py", "        change_address = SECP256k1PublicKey(wallet.get_annotated_public_key(\"change\"))\n        save_wallet(wallet)\n", "        change_address = SECP256k1PublicKey(wallet.get_annotated_public_key(\"change\"))\n")
